@@ -35,7 +35,7 @@ pub fn matrix(seed: u64, thorough: bool) -> Vec<(Proto, Transport)> {
     v
 }
 
-async fn one_config(a: Args, idx: usize, proto: Proto, transport: Transport) -> Report {
+async fn one_config(a: Args, idx: usize, proto: Proto, transport: Transport, permit: tokio::sync::OwnedSemaphorePermit) -> Report {
     let mut rep = Report::new();
     let mut rng = Rng::derive(a.seed, 0xC01, idx as u64);
     let n_users = if matches!(proto, Proto::Ss(m) if m.supports_eih()) && rng.chance(1, 2) { 2 } else if matches!(proto, Proto::Vmess(_)) { 2 } else { 0 };
@@ -79,7 +79,22 @@ async fn one_config(a: Args, idx: usize, proto: Proto, transport: Transport) -> 
             return rep;
         }
     };
+    // a second target on another port of the same hosts: flows to one name and different ports run side by side
+    let target2 = match start_target(reg.clone()).await {
+        Ok(t) => t,
+        Err(e) => {
+            rep.inconclusive(format!("second target listener: {e}"));
+            return rep;
+        }
+    };
     let kinds = README_KINDS;
+    // a flow whose target stays silent for 32 s before it answers (longer than any freshness window of the protocols):
+    // started now, judged at the end; everything else runs meanwhile
+    let late = {
+        let spec = FlowSpec { id: (idx as u64) << 16 | 5000, kind: kinds[idx % kinds.len()], c2s: 2000, s2c: 3000, write_c: 700, write_s: 900, pause_ms: 0, pattern: Pattern::LateAnswer(32_000), closer: Closer::TargetAfterAnswer };
+        let (reg, d, port) = (reg.clone(), d.clone(), target2.port);
+        tokio::spawn(async move { run_batch(reg, &d, port, vec![spec], 1, Duration::from_secs(60)).await })
+    };
     let n_flows = if a.thorough { 100 } else { 16 };
     let mut specs = Vec::new();
     for k in 0..n_flows {
@@ -108,7 +123,17 @@ async fn one_config(a: Args, idx: usize, proto: Proto, transport: Transport) -> 
         c.segment.store(*rng.pick(&[12u64, 100, 2000, 0]), std::sync::atomic::Ordering::SeqCst);
         rep.mon("configurations_with_resegmented_link", 1);
     }
-    results.extend(run_batch(reg.clone(), &d, target.port, rest.to_vec(), 8, Duration::from_secs(40)).await);
+    {
+        // the rest 8 at a time, alternating between the two target ports (same host names, different ports, side by side)
+        let (even, odd): (Vec<(usize, FlowSpec)>, Vec<(usize, FlowSpec)>) = rest.iter().cloned().enumerate().partition(|(k, _)| k % 2 == 0);
+        let (r1, r2) = tokio::join!(
+            run_batch(reg.clone(), &d, target.port, even.into_iter().map(|x| x.1).collect(), 4, Duration::from_secs(40)),
+            run_batch(reg.clone(), &d, target2.port, odd.into_iter().map(|x| x.1).collect(), 4, Duration::from_secs(40))
+        );
+        rep.mon("flows_to_a_second_port_of_the_same_host", r2.len() as u64);
+        results.extend(r1);
+        results.extend(r2);
+    }
     // an extra concurrent burst on some configurations (C09 at node level)
     if a.thorough || idx % 4 == 0 {
         let mut burst = Vec::new();
@@ -131,6 +156,15 @@ async fn one_config(a: Args, idx: usize, proto: Proto, transport: Transport) -> 
         }
         rep.mon("upload_and_close_flows", ups.len() as u64);
         results.extend(run_batch(reg.clone(), &d, target.port, ups, 8, Duration::from_secs(40)).await);
+    }
+    // the wait for the late answer does not occupy a slot: other configurations run meanwhile
+    drop(permit);
+    match late.await {
+        Ok(r) => {
+            rep.mon("flows_answered_after_32_s_of_silence", r.len() as u64);
+            results.extend(r);
+        }
+        Err(_) => rep.inconclusive("late-answer flow: task failed"),
     }
     for (spec, v) in results {
         rep.case(&(idx, spec.id), v.bytes_verified > 0 || v.symptom.is_some());
@@ -172,6 +206,7 @@ async fn one_config(a: Args, idx: usize, proto: Proto, transport: Transport) -> 
         }
     }
     drop(target);
+    drop(target2);
     drop(pair);
     drop(chopper);
     if std::env::var("OSV_KEEP_LOGS").is_err() {
@@ -192,8 +227,8 @@ pub async fn run(a: &Args) -> Report {
         let a = a.clone();
         let sem = sem.clone();
         hs.push(tokio::spawn(async move {
-            let _g = sem.acquire_owned().await.unwrap();
-            one_config(a, idx, p, t).await
+            let g = sem.acquire_owned().await.unwrap();
+            one_config(a, idx, p, t, g).await
         }));
     }
     let mut rep = Report::new();
